@@ -134,3 +134,107 @@ Print Assumptions C15_code_randn01.
 Theorem C15_src_randn01_range : forall u ds v ds', py_randn01 u ds = Some (v, ds') -> (0 <= v /\ v <= 1)%Q.
 Proof. exact src_randn01_range. Qed.
 Print Assumptions C15_src_randn01_range.
+
+(* ------------------------------------------------------------------------------------------------
+   THE TIE TO THE SOURCE for the update rules and the per-individual generators.  lehmer_mean (both call shapes),
+   SHADE._update_u_F / _update_u_CR / _generate_F_CR, SHAGA._update_u / _randc / _randn / _generate_MR_CR and
+   jDE._get_mutate_F / _get_mutate_CR are plain Python; their bodies are translated on every run (self._x reads
+   become parameters, stores into self are rejected) and proved equal to the models the theorems above are about
+   (== where the source and the model order the rational arithmetic differently). *)
+From TF Require Import CodeEqAdapt.
+Open Scope Q_scope.
+
+Theorem C15_code_lehmer_weighted : forall x w, py_lehmer_mean_weighted x w == lehmer w x.
+Proof. exact code_lehmer_weighted. Qed.
+Print Assumptions C15_code_lehmer_weighted.
+
+Theorem C15_code_lehmer_unweighted : forall x, py_lehmer_mean_unweighted x == lehmer (ones (length x)) x.
+Proof. exact code_lehmer_unweighted. Qed.
+Print Assumptions C15_code_lehmer_unweighted.
+
+Theorem C15_code_SHADE_update_u_F : forall u S, py_SHADE_update_u_F u S == shade_update_F u S.
+Proof. exact code_SHADE_update_u_F. Qed.
+Print Assumptions C15_code_SHADE_update_u_F.
+
+Theorem C15_code_SHADE_update_u_CR : forall u S df, py_SHADE_update_u_CR u S df == shade_update_CR u S df.
+Proof. exact code_SHADE_update_u_CR. Qed.
+Print Assumptions C15_code_SHADE_update_u_CR.
+
+Theorem C15_code_SHAGA_update_u : forall u S df, py_SHAGA_update_u u S df == shaga_update u S df.
+Proof. exact code_SHAGA_update_u. Qed.
+Print Assumptions C15_code_SHAGA_update_u.
+
+Theorem C15_code_SHAGA_randc : forall str_len u scale ds,
+  py_SHAGA_randc str_len u scale ds = randc_hi (ZtoQ 5 / ZtoQ str_len) ds.
+Proof. exact code_SHAGA_randc. Qed.
+Print Assumptions C15_code_SHAGA_randc.
+
+Theorem C15_code_SHAGA_randn : forall u scale ds, py_SHAGA_randn u scale ds = randn01 ds.
+Proof. exact code_SHAGA_randn. Qed.
+Print Assumptions C15_code_SHAGA_randn.
+
+Theorem C15_code_SHADE_generate_F_CR : forall (pop : nat) H HF HCR ds,
+  py_SHADE_generate_F_CR (Z.of_nat pop) H HF HCR ds = bind (shade_generate pop H) (fun l => ret (pairs_out l)) ds.
+Proof. exact code_SHADE_generate_F_CR. Qed.
+Print Assumptions C15_code_SHADE_generate_F_CR.
+
+Theorem C15_code_SHAGA_generate_MR_CR : forall (pop : nat) H HMR HCR str_len ds,
+  py_SHAGA_generate_MR_CR (Z.of_nat pop) H HMR HCR str_len ds
+  = bind (shaga_generate (ZtoQ 5 / ZtoQ str_len) pop H) (fun l => ret (pairs_out l)) ds.
+Proof. exact code_SHAGA_generate_MR_CR. Qed.
+Print Assumptions C15_code_SHAGA_generate_MR_CR.
+
+Theorem C15_code_jDE_get_mutate_F : forall F tF Fmin Fmax ds,
+  py_jDE_get_mutate_F F (zlen F) tF Fmin Fmax ds = jde_mutate (fun r => Fmin + Fmax * r) tF F ds.
+Proof. exact code_jDE_get_mutate_F. Qed.
+Print Assumptions C15_code_jDE_get_mutate_F.
+
+Theorem C15_code_jDE_get_mutate_CR : forall CR tCR ds, py_jDE_get_mutate_CR CR (zlen CR) tCR ds = jde_mutate_CR tCR CR ds.
+Proof. exact code_jDE_get_mutate_CR. Qed.
+Print Assumptions C15_code_jDE_get_mutate_CR.
+
+(* the ranges, stated about the source's own (generated) definitions *)
+Theorem C15_src_SHADE_update_u_F_range : forall u S, 0 < u /\ u <= 1 -> Forall (fun a => 0 < a /\ a <= 1) S ->
+  0 < py_SHADE_update_u_F u S /\ py_SHADE_update_u_F u S <= 1.
+Proof. exact src_SHADE_update_u_F_range. Qed.
+Print Assumptions C15_src_SHADE_update_u_F_range.
+
+Theorem C15_src_SHADE_update_u_CR_range : forall u S df, 0 <= u /\ u <= 1 -> Forall (fun a => 0 <= a /\ a <= 1) S ->
+  Forall (fun d => 0 <= d) df -> length df = length S ->
+  0 <= py_SHADE_update_u_CR u S df /\ py_SHADE_update_u_CR u S df <= 1.
+Proof. exact src_SHADE_update_u_CR_range. Qed.
+Print Assumptions C15_src_SHADE_update_u_CR_range.
+
+Theorem C15_src_SHAGA_update_u_range_MR : forall hi u S df, 0 < u /\ u <= hi ->
+  (exists lo, 0 < lo /\ Forall (fun a => lo <= a /\ a <= hi) S) ->
+  Forall (fun d => 0 <= d) df -> length df = length S ->
+  0 < py_SHAGA_update_u u S df /\ py_SHAGA_update_u u S df <= hi.
+Proof. exact src_SHAGA_update_u_range_MR. Qed.
+Print Assumptions C15_src_SHAGA_update_u_range_MR.
+
+Theorem C15_src_SHAGA_update_u_range_CR : forall u S df, 0 <= u /\ u <= 1 -> Forall (fun a => 0 <= a /\ a <= 1) S ->
+  Forall (fun d => 0 <= d) df -> length df = length S ->
+  0 <= py_SHAGA_update_u u S df /\ py_SHAGA_update_u u S df <= 1.
+Proof. exact src_SHAGA_update_u_range_CR. Qed.
+Print Assumptions C15_src_SHAGA_update_u_range_CR.
+
+Theorem C15_src_no_success_copy : forall u df,
+  py_SHADE_update_u_F u [] = u /\ py_SHADE_update_u_CR u [] df = u /\ py_SHAGA_update_u u [] df = u.
+Proof. exact src_no_success_copy. Qed.
+Print Assumptions C15_src_no_success_copy.
+
+Theorem C15_src_lehmer_zero_denominator : forall x w, sumQ (vmulv w (vpow x 1)) == 0 -> py_lehmer_mean_weighted x w = 0.
+Proof. exact src_lehmer_zero_denominator. Qed.
+Print Assumptions C15_src_lehmer_zero_denominator.
+
+Theorem C15_src_SHADE_generate_ranges : forall (pop : nat) H HF HCR ds Fs CRs ds', (0 < H)%Z -> valid_draws ds ->
+  py_SHADE_generate_F_CR (Z.of_nat pop) H HF HCR ds = Some ((Fs, CRs), ds') ->
+  length Fs = pop /\ length CRs = pop /\ Forall (fun a => 0 < a /\ a <= 1) Fs /\ Forall (fun a => 0 <= a /\ a <= 1) CRs.
+Proof. exact src_SHADE_generate_ranges. Qed.
+Print Assumptions C15_src_SHADE_generate_ranges.
+
+Theorem C15_src_SHAGA_generate_ranges : forall (pop : nat) H HMR HCR str_len ds MRs CRs ds', (0 < H)%Z -> valid_draws ds ->
+  py_SHAGA_generate_MR_CR (Z.of_nat pop) H HMR HCR str_len ds = Some ((MRs, CRs), ds') ->
+  length MRs = pop /\ length CRs = pop /\ Forall (fun a => 0 < a /\ a <= ZtoQ 5 / ZtoQ str_len) MRs /\ Forall (fun a => 0 <= a /\ a <= 1) CRs.
+Proof. exact src_SHAGA_generate_ranges. Qed.
+Print Assumptions C15_src_SHAGA_generate_ranges.
